@@ -15,7 +15,7 @@ RULE = ('Inputs: small generated documents of every selectable map (4010 -> 997,
         'whenever every copied value fits the acknowledgement\'s own element definitions. non-trivial = distinct acknowledgements containing >=1 AK4/IK4 with an echoed value.')
 ASSUMPTIONS = ['(d) acceptance is required only when the values copied from the input (control numbers, ids, echoed data) fit the 997/999 element definitions; otherwise only "no exception, no map-not-found"',
                'inputs for which validation itself does not complete are C07\'s business']
-REQUIRED_COUNTERS = ['inputs:fa-group-first', 'cli:invocations', 'cli:acks-compared', 'inputs:envelope-soup', 'acks', 'acks:997', 'acks:999', 'acks-with-echo', 'echo-with-ack-delimiter', 'reread', 'revalidated', 'revalidated:accepted']
+REQUIRED_COUNTERS = ['inputs:ta1-requested-by-several-interchanges', 'inputs:fa-group-first', 'cli:invocations', 'cli:acks-compared', 'inputs:envelope-soup', 'acks', 'acks:997', 'acks:999', 'acks-with-echo', 'echo-with-ack-delimiter', 'reread', 'revalidated', 'revalidated:accepted']
 MIN_CASES = {'quick': 500, 'thorough': 15000}
 WATCHDOG_S = {'quick': 1200, 'thorough': 7200}
 
@@ -330,7 +330,7 @@ def run(ctx):
             continue
         if len(doc.recs) > 300:
             continue
-        fam = rng.choice(['faults', 'faults', 'hostile', 'hostile', 'many', 'missing-ctl', 'mutated', 'soup', 'fa-group-first'])
+        fam = rng.choice(['faults', 'faults', 'hostile', 'hostile', 'many', 'missing-ctl', 'mutated', 'soup', 'fa-group-first', 'ta1-requested'])
         terms = ('~', '*', ':')
         kinds = [fam]
         if fam == 'faults':
@@ -355,6 +355,18 @@ def run(ctx):
                 if r.node.id == 'GS' and rng.random() < 0.3:
                     r.vals[1] = rng.choice(['', 'A', 'SENDER WITH BLANK'])
         text = doc.text(terms[0], terms[1], terms[2], '\n' if terms[0] != '\n' else '')
+        if fam == 'ta1-requested':
+            # several interchanges, each asking for an interchange acknowledgement (ISA14 = 1): the answer is still ONE interchange
+            try:
+                doc = gen_doc.gen_document(e, rng.randrange(1 << 30), **dict(kw, n_isa=rng.choice([2, 3]), n_gs=1, n_st=1))
+            except gen_doc.GenFailed:
+                continue
+            doc = faults.clone(doc)
+            for r in doc.recs:
+                if r.node.id == 'ISA' and rng.random() < 0.85:
+                    r.vals[13] = '1'
+            text = doc.text(terms[0], terms[1], terms[2], '\n' if terms[0] != '\n' else '')
+            ctx.count('inputs:ta1-requested-by-several-interchanges')
         if fam == 'fa-group-first':
             # a functional group of acknowledgements (GS01 = FA) in front of the ordinary group(s) of the same interchange: the validator answers
             # the file as a whole, so the FA group's sets appear in the acknowledgement too
